@@ -146,6 +146,27 @@ M = [
       old="        NonZero::new(*rhs).and_then(|rhs| self.checked_div_rem(&rhs).0.into())\n    }\n\n    /// Computes `self` % `rhs`, returns the remainder.",
       new="        NonZero::new(*rhs).map(|rhs| self.checked_div_rem(&rhs).0.unwrap_or(Self::MIN))\n    }\n\n    /// Computes `self` % `rhs`, returns the remainder.",
       expect="c13.gate|int::div::<impl int::Int<_>>::checked_div"),
+ # --- C02 / C03 / C05 / C14 (family-scoped clauses)
+ dict(name="uint_wrapping_div_ignores_divisor", prop="C02", file="src/uint/div.rs",
+      old="    pub const fn wrapping_div(&self, rhs: &NonZero<Self>) -> Self {\n        self.div_rem(rhs).0",
+      new="    pub const fn wrapping_div(&self, rhs: &NonZero<Self>) -> Self {\n        let _ = rhs;\n        self.div_rem(&NonZero::<Self>::ONE).0",
+      expect="c02.complete|uint::div::<impl uint::Uint<_>>::wrapping_div"),
+ dict(name="uint_checked_rem_always_some", prop="C02", file="src/uint/div.rs",
+      old="        NonZero::new(*rhs).map(|rhs| self.rem(&rhs))",
+      new="        CtOption::new(self.rem(&NonZero::new(*rhs).unwrap_or(NonZero::<Self>::ONE)), subtle::Choice::from(1u8))",
+      expect="c02.gate|uint::div::<impl uint::Uint<_>>::checked_rem"),
+ dict(name="uint_checked_mul_ignores_hi", prop="C03", file="src/uint/mul.rs",
+      old="        let (lo, hi) = self.split_mul(rhs);\n        CtOption::new(lo, hi.is_zero())",
+      new="        let (lo, _hi) = self.split_mul(rhs);\n        CtOption::new(lo, subtle::Choice::from(1u8))",
+      expect="c03.gate|uint::mul::<impl traits::CheckedMul<uint::Uint<_>> for uint::Uint<_>>::checked_mul"),
+ dict(name="uint_overflowing_shl_flag_constant", prop="C05", file="src/uint/shl.rs",
+      old="        let overflow = ConstChoice::from_u32_lt(shift, Self::BITS).not();\n        let shift = shift % Self::BITS;\n        let mut result = *self;\n        let mut i = 0;\n        while i < shift_bits {",
+      new="        let overflow = ConstChoice::FALSE;\n        let shift = shift % Self::BITS;\n        let mut result = *self;\n        let mut i = 0;\n        while i < shift_bits {",
+      expect="c05.gate|uint::shl::<impl uint::Uint<_>>::overflowing_shl"),
+ dict(name="int_checked_div_floor_no_fit_test", prop="C14", file="src/int/div.rs",
+      old="        NonZero::new(*rhs).and_then(|rhs| self.checked_div_rem_floor(&rhs).0.into())",
+      new="        NonZero::new(*rhs).map(|rhs| self.checked_div_rem_floor(&rhs).0.unwrap_or(Self::MIN))",
+      expect="c14.gate|int::div::<impl int::Int<_>>::checked_div_floor"),
  # --- C19
  dict(name="random_mod_core_polarity", prop="C19", file="src/uint/rand.rs",
       old="        if n.ct_lt(modulus).into() {\n            break;", new="        if !bool::from(n.ct_lt(modulus)) {\n            break;",
